@@ -1026,8 +1026,14 @@ impl<R: Read> RdbReader<R> {
     /// Read string
     fn read_string(&mut self) -> Result<Vec<u8>> {
         let len = self.read_length()?;
-        let mut buf = vec![0u8; len];
-        self.read_exact(&mut buf)?;
+        // The length comes from the file and may be corrupt: let the buffer grow with the
+        // bytes that are actually there instead of allocating `len` bytes up front
+        let mut buf = Vec::new();
+        self.reader.by_ref().take(len as u64).read_to_end(&mut buf)
+            .map_err(|e| FerrousError::Io(e.to_string()))?;
+        if buf.len() != len {
+            return Err(FerrousError::Io("failed to fill whole buffer".to_string()));
+        }
         Ok(buf)
     }
     
